@@ -422,11 +422,16 @@ def r14_zone_pair(ctx):
         for n in walk_no_nested(ef.node):
             if isinstance(n, ast.If) and "endswith('Z')" in U(n.test):
                 chain = n
+        czname = None
+        for n in walk_no_nested(ef.node):
+            if isinstance(n, ast.Return) and isinstance(
+                    n.value, ast.Tuple) and len(n.value.elts) == 3:
+                czname = U(n.value.elts[2])
         branches = []
         cur = chain
         while cur is not None:
             sets = [x for x in cur.body if isinstance(x, ast.Assign) and
-                    U(x.targets[0]) == "custom_time_zone"]
+                    U(x.targets[0]) == czname]
             branches.append((U(cur.test), bool(sets)))
             cur = cur.orelse[0] if len(cur.orelse) == 1 and isinstance(
                 cur.orelse[0], ast.If) else None
